@@ -1102,35 +1102,29 @@ unsafe fn inverse_v_i16_wasm32_simd128(merged: &mut MutableSubgrid<'_, i16>) {
 }
 
 fn tendency_i32(a: i32, b: i32, c: i32) -> i32 {
-    let a = Wrapping(a);
-    let b = Wrapping(b);
-    let c = Wrapping(c);
-
-    let n1 = Wrapping(1);
-    let n2 = Wrapping(2);
-    let n3 = Wrapping(3);
-    let n4 = Wrapping(4);
-    let n6 = Wrapping(6);
-    let n12 = Wrapping(12);
+    // Intermediate values need more than 32 bits for samples of large magnitude.
+    let a = a as i64;
+    let b = b as i64;
+    let c = c as i64;
 
     if a >= b && b >= c {
-        let mut x = (n4 * a - n3 * c - b + n6) / n12;
-        if x - (x & n1) > n2 * (a - b) {
-            x = n2 * (a - b) + n1;
+        let mut x = (4 * a - 3 * c - b + 6) / 12;
+        if x - (x & 1) > 2 * (a - b) {
+            x = 2 * (a - b) + 1;
         }
-        if x + (x & n1) > n2 * (b - c) {
-            x = n2 * (b - c);
+        if x + (x & 1) > 2 * (b - c) {
+            x = 2 * (b - c);
         }
-        x.0
+        x as i32
     } else if a <= b && b <= c {
-        let mut x = (n4 * a - n3 * c - b - n6) / n12;
-        if x + (x & n1) < n2 * (a - b) {
-            x = n2 * (a - b) - n1;
+        let mut x = (4 * a - 3 * c - b - 6) / 12;
+        if x + (x & 1) < 2 * (a - b) {
+            x = 2 * (a - b) - 1;
         }
-        if x - (x & n1) < n2 * (b - c) {
-            x = n2 * (b - c);
+        if x - (x & 1) < 2 * (b - c) {
+            x = 2 * (b - c);
         }
-        x.0
+        x as i32
     } else {
         0
     }
